@@ -182,6 +182,9 @@ static bool traverse_c03(void)
  * ABSENT name that sorts just before it (the field's name without its last byte, or with its last byte decremented),
  * then the lookup of the field itself. node = the tree node of the container being transcribed (LOOKUPS only). */
 static bool LOOKUPS;
+/* P2W_LEVEL >= 0: containers met at that nesting level of the transcription (0 = the members of the root) are not entered but handed to
+ * the writer as a whole with binson_parser_to_writer - "the corresponding writer call" for a container */
+static int P2W_LEVEL = -1;
 static int lk_node[400];
 static bool advance_field(binson_parser *p, int container, int *child)
 {
@@ -236,6 +239,15 @@ static bool transcribe_level(binson_parser *p, binson_writer *w, bool inobj, int
         case BINSON_TYPE_DOUBLE: binson_write_double(w, binson_parser_get_double(p)); break;
         case BINSON_TYPE_STRING: { bbuf *s = binson_parser_get_string_bbuf(p); if (!s) return fail("string-null", "get_string_bbuf NULL"); binson_write_string_with_len(w, (const char *) s->bptr, s->bsize); break; }
         case BINSON_TYPE_BYTES: { bbuf *s = binson_parser_get_bytes_bbuf(p); if (!s) return fail("bytes-null", "get_bytes_bbuf NULL"); binson_write_bytes(w, s->bptr, s->bsize); break; }
+        case BINSON_TYPE_OBJECT: case BINSON_TYPE_ARRAY:
+            if (depth != P2W_LEVEL) goto enter;
+            if (!binson_parser_to_writer(p, w)) return fail("to_writer-false", "parser_to_writer failed on a container (parser error %d, writer error %d)", (int) p->error_flags, (int) w->error_flags);
+            break;
+        default: return fail("type-none", "get_type returned %d after a successful next", (int) binson_parser_get_type(p));
+        }
+        continue;
+    enter:
+        switch (binson_parser_get_type(p)) {
         case BINSON_TYPE_OBJECT:
             if (!binson_parser_go_into_object(p)) return fail("enter-false", "go_into_object failed");
             binson_write_object_begin(w);
@@ -252,7 +264,7 @@ static bool transcribe_level(binson_parser *p, binson_writer *w, bool inobj, int
             if (!binson_parser_leave_array(p)) return fail("leave-false", "leave_array failed");
             binson_write_array_end(w);
             break;
-        default: return fail("type-none", "get_type returned %d after a successful next", (int) binson_parser_get_type(p));
+        default: break;
         }
     }
     return true;
@@ -659,6 +671,11 @@ static void on_doc(vf_gen *g, void *u)
     run_doc(&g->doc, vf_shape(&g->doc), need);
     run_doc(&g->doc, vf_shape(&g->doc), need + 3);
     if (P_C10) { LOOKUPS = true; run_doc(&g->doc, "same document, objects traversed by field lookups (a miss before every field)", need); LOOKUPS = false; }
+    if (P_C10 && g->doc.nn > 2)
+        for (int lv = 0; lv < 3; lv++) {
+            static const char *const lab[] = { "same document, containers at level 0 handed to parser_to_writer", "same document, containers at level 1 handed to parser_to_writer", "same document, containers at level 2 handed to parser_to_writer" };
+            P2W_LEVEL = lv; run_doc(&g->doc, lab[lv], need); P2W_LEVEL = -1;
+        }
     if (!P_C05 && g->doc.nn > 2) { PREPASS = true; run_doc(&g->doc, "same document after a dive to the deepest level and a reset", need); PREPASS = false; }
 }
 
@@ -741,7 +758,8 @@ static void replay_main(void)
     if (vf_ref_decode(bytes, (size_t) n, kind, 255, &R) != VR_OK) vf_die("replay document is not valid");
     R.bytes = bytes; R.len = (size_t) n; R.root_kind = kind;
     D = &R; LABEL = "replay"; MDEPTH = atoi(md);
-    { char *lb = vf_replay_get(t, "label"); PREPASS = lb && strstr(lb, "after a dive") != NULL; LOOKUPS = lb && strstr(lb, "field lookups") != NULL; }
+    { char *lb = vf_replay_get(t, "label"); PREPASS = lb && strstr(lb, "after a dive") != NULL; LOOKUPS = lb && strstr(lb, "field lookups") != NULL;
+      const char *pl = lb ? strstr(lb, "containers at level ") : NULL; if (pl) P2W_LEVEL = atoi(pl + 20); }
     vf_g.wid = 0;
     vf_fatal_describe = describe;
     vf_install_fatal();
